@@ -22,4 +22,37 @@ CHECKS = {
                      'out-of-place use only (no caller of the cipher encrypts in place)',
                      'auth keys are 256 bytes; message-level wrapper messages have >=1 byte (every caller prepends a 32-byte header)'],
     ),
+    'C03': dict(
+        pkg='./c03', test='TestC03', level='exploration',
+        quick=dict(shards=4, checks=5000),
+        thorough=dict(shards=16, checks=120000, budget_s=3000),
+        level_text=('Differential check of the envelope in both directions against an independent MTProto-1.0 implementation '
+                    '(KDF, AES-IGE, layout) acting as conformant server: generated keys/salts/ids/bodies plus every body length '
+                    '0..1100 (0..65536 thorough) once per direction.'),
+        technique='property-based differential testing (rapid) against an independent MTProto 1.0 envelope implementation',
+        rule=('cases = (direction c2s|s2c|plain, 256-byte auth key incl. all-zero/all-0xff/leading-zero keys, salt, session id, msg_id with the '
+              "sender's parity, seq_no, ack flag, body of 0..65536 bytes); c2s: Encrypted.Serialize is opened by the reference server; s2c: a "
+              'reference-sealed packet with 0-15 padding bytes is opened by DeserializeEncrypted; plain: exact byte layout. Non-trivial: '
+              'body length > 0; distinct by hash of all inputs.'),
+        must_hit=['c2s:len%%16=%d' % r for r in range(16)] + ['s2c:len%%16=%d' % r for r in range(16)] + ['c2s:ack=true', 'c2s:ack=false', 'plain:len%16=0'],
+        assumptions=['crypto/aes, crypto/sha1 of the standard library', 'client seq_no counter is even and client msg_ids are multiples of 4 (as the client produces them)',
+                     'padding content is not compared (the protocol leaves it free)'],
+    ),
+    'C04': dict(
+        pkg='./c04', test='TestC04', level='fault_enumeration',
+        quick=dict(shards=4, checks=60),
+        thorough=dict(shards=16, checks=1500, budget_s=3000),
+        level_text=('Every generated valid packet is subjected to the enumerated fault list: all single-bit flips (exhaustive for packets '
+                    '<= 256 bytes), all truncation lengths, extension, re-keying, reflection, garbage bodies, attacker-with-key declared '
+                    'lengths {-2^31,-1,len-33..len+33,2^30,2^31-1}, wrong parity, inconsistent plain packets; the expected verdict is '
+                    'computed by an independent reading of the four acceptance conditions.'),
+        technique='fault enumeration over generated packets (rapid) with a reference acceptance decision',
+        rule=('base = generated valid server->client packet (random 256-byte key, envelope fields, body 0..200 bytes quick / 0..2048 thorough); '
+              'each base is evaluated under every fault of the list above; a case is (receiver key, bytes handed to DeserializeEncrypted / '
+              'DeserializeUnencrypted). Non-trivial: the fault changes at least one byte; distinct by hash of (key, bytes).'),
+        must_hit=['flip:keyid', 'flip:msgkey', 'flip:ciphertext', 'trunc:8..23-with-valid-keyid', 'trunc:<8', 'trunc:>=24', 'attacker:L<0',
+                  'attacker:L-just-above', 'attacker:L-huge', 'attacker:L-in-range', 'rekeyed', 'garbage', 'parity', 'plain:bad-length', 'plain:truncated-header'],
+        assumptions=['the reference acceptance decision reads the statement literally: key id, msg_key over header+declared body, 0<=L<=data, server parity; '
+                     'an attacker-with-key packet that satisfies all four is accepted (the statement allows it)'],
+    ),
 }
